@@ -766,7 +766,7 @@ class MembersType(StandardEncodeMixin, StandardDecodeMixin, Type):
         # Decode additions (even if out of data already, so defaults can be added)
         if self.additions:
             offset, out_of_data = self.decode_members(flatten(self.additions), data, values, offset, end_offset,
-                                                      ignore_missing=True)
+                                                      ignore_missing=True, out_of_data=out_of_data)
 
         if out_of_data:
             return values, offset
@@ -778,7 +778,7 @@ class MembersType(StandardEncodeMixin, StandardDecodeMixin, Type):
             # Extra data is allowed in cases of versioned additions
             return values, end_offset
 
-    def decode_members(self, members, data, values, offset, end_offset, ignore_missing=False):
+    def decode_members(self, members, data, values, offset, end_offset, ignore_missing=False, out_of_data=False):
         """
         Decode values for members from data starting from offset
         Supports member data encoded in different order than members specified
@@ -788,6 +788,8 @@ class MembersType(StandardEncodeMixin, StandardDecodeMixin, Type):
         :param int offset:
         :param int end_offset: End offset of member data (None if indefinite length field)
         :param bool ignore_missing: Whether to not raise DecodeError for missing mandatory fields with no defaults
+        :param bool out_of_data: Whether the end of the member data (and any end-of-contents tag) has already
+                                 been passed
         :return:
         """
         # Decode member values from data
@@ -797,7 +799,8 @@ class MembersType(StandardEncodeMixin, StandardDecodeMixin, Type):
             undecoded_members = []
             decode_success = False  # Whether at least one member was successfully decoded
 
-            out_of_data, offset = is_end_of_data(data, offset, end_offset)
+            if not out_of_data:
+                out_of_data, offset = is_end_of_data(data, offset, end_offset)
             # Attempt to decode remaining members. If they are encoded in same order, should decode all in one loop
             # Otherwise will require multiple iterations of outer loop
             for member in remaining_members:
